@@ -424,3 +424,55 @@ def loop_counter(check: Check, funcs: Iterable[ast.AST], rule: str = "LOOP-COUNT
     check.control(f"{rule}:bad", any(not ok for *_x, ok in loop_counter_violations(fx.get("counter_bad"))), True)
     check.control(f"{rule}:ok", any(not ok for *_x, ok in loop_counter_violations(fx.get("counter_ok"))), False)
     return n
+
+
+# --------------------------------------------------------------------------- #
+# VALUE-KEYED-CACHE
+
+_CACHE_DECOS = {"lru_cache", "cache", "functools.lru_cache", "functools.cache"}
+
+
+def _cache_decorated(fn: ast.AST) -> bool:
+    for d in getattr(fn, "decorator_list", []):
+        target = d.func if isinstance(d, ast.Call) else d
+        if unparse(target) in _CACHE_DECOS:
+            return True
+    return False
+
+
+def value_keyed_cache(check: Check, repo: Repo, mods: Iterable[Module], rule: str = "VALUE-KEYED-CACHE") -> int:
+    from sa.resolve import ClassIndex
+
+    check.rule(
+        rule,
+        "a function memoised by functools.lru_cache / cache is keyed by the equality of its arguments: none "
+        "of its parameters is annotated with a class of the package that defines __eq__ / __hash__ over a "
+        "subset of what the function reads (Location compares start/end only, not the source; Token, Node "
+        "and Source compare by content) - two different documents would share one cached rendering",
+    )
+    classes = ClassIndex(repo)
+    by_name: dict[str, list] = {}
+    for ci in classes.by_full.values():
+        by_name.setdefault(ci.name, []).append(ci)
+    n = 0
+    for mod in mods:
+        for fn in mod.functions():
+            if not _cache_decorated(fn):
+                continue
+            n += 1
+            bad = []
+            for a in [*fn.args.posonlyargs, *fn.args.args, *fn.args.kwonlyargs]:
+                if a.annotation is None:
+                    bad.append((a.arg, "unannotated"))
+                    continue
+                for nm in {x.id for x in ast.walk(a.annotation) if isinstance(x, ast.Name)} | {
+                        x.value for x in ast.walk(a.annotation) if isinstance(x, ast.Constant) and isinstance(x.value, str)}:
+                    for ci in by_name.get(nm, []):
+                        if any(m in c.methods() for c in classes.mro(ci) for m in ("__eq__", "__hash__")):
+                            bad.append((a.arg, f"{ci.name} defines its own __eq__/__hash__"))
+            check.ob(rule, fn, f"{fn.name}: memoised by value", not bad,
+                     "parameters are plain values" if not bad else "; ".join(f"parameter `{p}`: {why}" for p, why in bad))
+    fx = fixture("generic_controls")
+    check.control(f"{rule}:decorated", _cache_decorated(fx.get("cached_bad")), True)
+    check.control(f"{rule}:plain", _cache_decorated(fx.get("zip_ok")), False)
+    return n
